@@ -23,13 +23,13 @@ theorem del_step {d2 d3 : Disk} {P : List Seg} {t : Seg} {f2 : File} (h2 : FRun 
 /-- the append failed: whatever it left beyond the writer's offset, readers see what they saw -/
 theorem append_fail {d1 d2 : Disk} {P : List Seg} {t : Seg} {f f2 : File} (h : FRun d1 P t f) {es : List Entry}
     {seals : Bool} {del : List Act} {j : Nat} (hdel : del = [] ∨ del = [.delete j]) (hj : ∀ s ∈ P ++ [t], s.id ≠ j)
-    {k1 k2 : Option Nat} {wf : WriteFail} {a : Act}
-    (hrun : runActs d1 wf [.write t.id es seals, .fsync t.id] k1 = (d2, some a, k2))
+    {k1 k2 : Plan} {a : Act}
+    (hrun : runActs d1 [.write t.id es seals, .fsync t.id] k1 = (d2, some a, k2))
     (h2 : FRun d2 P t f2) (hl : logP d2 P = logP d1 P) (hb : f2.base = f.base) (hs : f2.synced = f.synced)
     (hx : f2.pending = f.pending ∨ f2.pending = [] ∨ f2.pending = es) (hx2 : XT f → XT f2) :
     AppSpec d1 (XT f) (absLog (vdisk d1)) (absLog (vdisk d1) ++ idxFrom (f.base + f.synced.length) es)
-      (appendPhase d1 t.id es seals del k1 wf) := by
-  obtain ⟨d3, k3, hrun3, hd⟩ := runActs_del d2 wf del j hdel k2
+      (appendPhase d1 t.id es seals del k1) := by
+  obtain ⟨d3, k3, hrun3, hd⟩ := runActs_del d2 del j hdel k2
   obtain ⟨h3, hl3⟩ := del_step h2 hj hd
   unfold appendPhase
   rw [hrun]
@@ -53,14 +53,14 @@ theorem append_fail {d1 d2 : Disk} {P : List Seg} {t : Seg} {f f2 : File} (h : F
 /-- write and fsync went through -/
 theorem append_ok {d1 : Disk} {P : List Seg} {t : Seg} {f : File} (h : FRun d1 P t f) (hss : f.sealedS = false)
     {es : List Entry} (hes : es ≠ []) {seals : Bool} {del : List Act} {j : Nat} (hdel : del = [] ∨ del = [.delete j])
-    (hj : ∀ s ∈ P ++ [t], s.id ≠ j) {k1 k2 : Option Nat} {wf : WriteFail}
-    (hrun : runActs d1 wf [.write t.id es seals, .fsync t.id] k1 =
+    (hj : ∀ s ∈ P ++ [t], s.id ≠ j) {k1 k2 : Plan}
+    (hrun : runActs d1 [.write t.id es seals, .fsync t.id] k1 =
       ((updT d1 t.id (setPend es seals)).apply (.fsync t.id), none, k2)) :
     AppSpec d1 (XT f) (absLog (vdisk d1)) (absLog (vdisk d1) ++ idxFrom (f.base + f.synced.length) es)
-      (appendPhase d1 t.id es seals del k1 wf) := by
+      (appendPhase d1 t.id es seals del k1) := by
   obtain ⟨hw, hlw⟩ := h.putPend hss es seals
   obtain ⟨f2, h2, hl2, g1, g2, g3, g4, g5, g6⟩ := hw.fsyncT
-  obtain ⟨d3, k3, hrun3, hd⟩ := runActs_del ((updT d1 t.id (setPend es seals)).apply (.fsync t.id)) wf del j hdel k2
+  obtain ⟨d3, k3, hrun3, hd⟩ := runActs_del ((updT d1 t.id (setPend es seals)).apply (.fsync t.id)) del j hdel k2
   obtain ⟨h3, hl3⟩ := del_step h2 hj hd
   have hs2 : f2.synced = f.synced ++ es := g2
   have hb2 : f2.base = f.base := g1
@@ -82,23 +82,16 @@ theorem append_ok {d1 : Disk} {P : List Seg} {t : Seg} {f : File} (h : FRun d1 P
     have hss2 : f2.sealedS = true := by rw [g4]; simp [setPend]
     have hne2 : f2.synced ≠ [] := by
       rw [hs2]; intro hc; exact hes (List.append_eq_nil_iff.1 hc).2
-    obtain ⟨q1, q2, q3, q4⟩ := rotPhase_spec h3 hss2 hne2 g6 k3 wf
+    obtain ⟨q1, q2, q3, q4⟩ := rotPhase_spec h3 hss2 hne2 g6 k3
     exact ⟨q1, by rw [q2]; exact hv, Or.inl (by rw [q3, q2]), fun _ => q4⟩
 
 theorem appendPhase_spec {d1 : Disk} {P : List Seg} {t : Seg} {f : File} (h : FRun d1 P t f) (hss : f.sealedS = false)
     {es : List Entry} (hes : es ≠ []) (seals : Bool) {del : List Act} {j : Nat} (hdel : del = [] ∨ del = [.delete j])
-    (hj : ∀ s ∈ P ++ [t], s.id ≠ j) (k1 : Option Nat) (wf : WriteFail) :
+    (hj : ∀ s ∈ P ++ [t], s.id ≠ j) (k1 : Plan) :
     AppSpec d1 (XT f) (absLog (vdisk d1)) (absLog (vdisk d1) ++ idxFrom (f.base + f.synced.length) es)
-      (appendPhase d1 t.id es seals del k1 wf) := by
-  have hrun := runActs_write_fsync d1 wf t.id es seals k1
-  match k1 with
-  | none => exact append_ok h hss hes hdel hj hrun
-  | some (n + 2) => exact append_ok h hss hes hdel hj hrun
-  | some 1 =>
-    obtain ⟨hw, hlw⟩ := h.putPend hss es seals
-    exact append_fail h hdel hj hrun hw hlw rfl rfl (Or.inr (Or.inr rfl)) (fun _ => XT_of_pending hes)
-  | some 0 =>
-    cases wf with
+      (appendPhase d1 t.id es seals del k1) := by
+  rcases runActs_write_fsync d1 t.id es seals k1 with ⟨wf, rest, hrun⟩ | ⟨rest, hrun⟩ | ⟨rest, hrun⟩
+  · cases wf with
     | nothing => exact append_fail h hdel hj hrun h rfl rfl rfl (Or.inl rfl) id
     | garbage =>
       obtain ⟨hw, hlw⟩ := h.putPend hss [] false
@@ -106,5 +99,8 @@ theorem appendPhase_spec {d1 : Disk} {P : List Seg} {t : Seg} {f : File} (h : FR
     | whole =>
       obtain ⟨hw, hlw⟩ := h.putPend hss es seals
       exact append_fail h hdel hj hrun hw hlw rfl rfl (Or.inr (Or.inr rfl)) (fun _ => XT_of_pending hes)
+  · obtain ⟨hw, hlw⟩ := h.putPend hss es seals
+    exact append_fail h hdel hj hrun hw hlw rfl rfl (Or.inr (Or.inr rfl)) (fun _ => XT_of_pending hes)
+  · exact append_ok h hss hes hdel hj hrun
 
 end RaftWal.Fault.A
